@@ -647,9 +647,12 @@ impl Sess {
                 };
                 if let Some(want) = want {
                     if !effs.iter().any(|(m, e)| *m == n && *e == want) {
+                        // the discriminating trait of a message stamped in the very millisecond in which the host
+                        // began to hold the node stale (it belongs to the session AFTER that instant: not older)
+                        let at_stale = ts.is_some() && ts == self.stale_ts.get(&n).copied();
                         out.fail(
                             "C05:prompt-apply",
-                            &format!("in-order-stream:{}{}", w[3], if bare { ":no-metrics" } else { "" }),
+                            &format!("in-order-stream:{}{}{}", w[3], if bare { ":no-metrics" } else { "" }, if at_stale { ":stamped-at-stale-instant" } else { "" }),
                             format!("{} => {:?}: expected {}", op, effs, want),
                         );
                     }
@@ -1074,15 +1077,56 @@ pub struct PMsg {
     pub index: usize, // publish index within the session (1-based; NBIRTH is 0)
 }
 
+/// how a publisher session stamps its messages relative to its NBIRTH (timestamp `b`): every comparison the host
+/// makes with a message timestamp (`< birth timestamp`, `< stale timestamp`) is met with EQUAL operands by the
+/// flat shapes (a publisher that sends a whole session within one millisecond of its clock)
+#[derive(Clone, Copy, Debug, PartialEq)]
+pub enum TsShape {
+    /// message k carries b + k (1 ms per message)
+    Step,
+    /// every message carries b
+    Flat,
+    /// the first j messages carry b, message k > j carries b + (k - j)
+    FlatHead(usize),
+}
+
+impl TsShape {
+    pub fn ts(&self, b: u64, k: usize) -> u64 {
+        match *self {
+            TsShape::Step => b + k as u64,
+            TsShape::Flat => b,
+            TsShape::FlatHead(j) => b + k.saturating_sub(j) as u64,
+        }
+    }
+    pub fn random(rng: &mut Rng) -> TsShape {
+        match rng.below(4) {
+            0 => TsShape::Flat,
+            1 => TsShape::FlatHead(rng.range(1, 3) as usize),
+            _ => TsShape::Step,
+        }
+    }
+    pub fn name(&self) -> &'static str {
+        match self {
+            TsShape::Step => "ts-shape:step",
+            TsShape::Flat => "ts-shape:flat",
+            TsShape::FlatHead(_) => "ts-shape:flat-head",
+        }
+    }
+}
+
 /// a valid publisher session for one node: NBIRTH then `n` resequenceable messages
 pub fn session(rng: &mut Rng, bd: u64, birth_ts: u64, n: usize, ndev: u64, next_id: &mut u64) -> (String, Vec<PMsg>) {
+    session_shaped(rng, bd, birth_ts, n, ndev, next_id, TsShape::Step)
+}
+
+pub fn session_shaped(rng: &mut Rng, bd: u64, birth_ts: u64, n: usize, ndev: u64, next_id: &mut u64, shape: TsShape) -> (String, Vec<PMsg>) {
     *next_id += 1;
     let birth = format!("nbirth ts={} bd={} id={} ans=ok", birth_ts, bd, *next_id);
     let mut dev_up = vec![false; ndev as usize + 1];
     let mut v = vec![];
     for k in 1..=n {
         let seq = k % 256;
-        let ts = birth_ts + k as u64;
+        let ts = shape.ts(birth_ts, k);
         *next_id += 1;
         let id = *next_id;
         let d = if ndev > 0 { rng.range(1, ndev) } else { 0 };
@@ -1158,12 +1202,35 @@ fn clean_case(out: &mut Out, rng: &mut Rng, long: bool) {
     let mut queues: Vec<Vec<PMsg>> = vec![vec![]; nodes];
     let mut bodies: Vec<(usize, String, usize)> = vec![]; // (node, request body, publish index or 0)
     let mut big_any = false;
+    // host clock reading at which the node's NDEATH is handled (= the instant the host holds it stale from)
+    let mut died_at: Vec<Option<u64>> = vec![None; nodes];
+    // position in `bodies` of the NBIRTH of a session stamped in that very millisecond
+    let mut same_ms: Vec<bool> = vec![];
+    let mut shapes: Vec<&'static str> = vec![];
     for (pos, it) in plan.iter().enumerate() {
         let now = t0 + pos as u64;
         match it {
-            Item::Death { node, bd } => bodies.push((*node, format!("ev n{} ndeath bd={}{}", node + 1, bd, will_ts(rng)), 0)),
+            Item::Death { node, bd } => {
+                died_at[*node] = Some(now);
+                bodies.push((*node, format!("ev n{} ndeath bd={}{}", node + 1, bd, will_ts(rng)), 0));
+                same_ms.push(false);
+            }
             Item::Birth { node, bd, n, ndev } => {
-                let (birth, msgs) = session(rng, *bd, now, *n, *ndev, &mut next_id);
+                // equal timestamps: the session is stamped flat (every message at the birth's millisecond) and, after
+                // an NDEATH, the whole session may start in the millisecond in which the host took the NDEATH (a fast
+                // reconnect, or a publisher clock slightly behind the host's): such messages are NOT older than the
+                // staleness, they are applied like any other
+                let shape = TsShape::random(rng);
+                let (bts, same) = match died_at[*node].take() {
+                    Some(s) if rng.chance(1, 2) => (s, true),
+                    _ => (now, false),
+                };
+                shapes.push(shape.name());
+                if same {
+                    shapes.push("session-stamped-at-stale-instant");
+                }
+                let (birth, msgs) = session_shaped(rng, *bd, bts, *n, *ndev, &mut next_id, shape);
+                same_ms.push(same);
                 // displacement: small (0..=30), or - long sessions, one in two - LARGE: every message may be delivered up to
                 // 128..=254 places late (fewer than 256 numbers outstanding, so each message still has one place), or one
                 // message overtakes 128..=220 earlier ones on top of a small displacement
@@ -1190,6 +1257,7 @@ fn clean_case(out: &mut Out, rng: &mut Rng, long: bool) {
             Item::Msg { node, .. } => {
                 let m = queues[*node].pop().unwrap();
                 bodies.push((*node, format!("ev n{} {}", node + 1, m.body), m.index));
+                same_ms.push(false);
             }
         }
     }
@@ -1226,9 +1294,14 @@ fn clean_case(out: &mut Out, rng: &mut Rng, long: bool) {
     let mut arrived: Vec<Vec<bool>> = vec![vec![]; nodes];
     let mut mex = vec![1usize; nodes];
     let mut applied = vec![0usize; nodes];
-    for (node, body, idx) in bodies {
+    for s in shapes {
+        c.out.count(s);
+    }
+    let mut at_stale_instant = vec![false; nodes];
+    for (pos, (node, body, idx)) in bodies.into_iter().enumerate() {
         let a = c.op(&body[..]);
         if body.contains(" nbirth ") {
+            at_stale_instant[node] = same_ms[pos];
             arrived[node] = vec![false; 800];
             arrived[node][0] = true;
             mex[node] = 1;
@@ -1254,8 +1327,8 @@ fn clean_case(out: &mut Out, rng: &mut Rng, long: bool) {
         if applied[node] != mex[node] - 1 {
             c.out.fail(
                 "C05:prompt-apply",
-                "clean-stream",
-                format!("node n{}: after delivery of message #{} all of 1..{} have arrived but {} applied", node + 1, idx, mex[node], applied[node]),
+                if at_stale_instant[node] { "clean-stream:session-stamped-at-stale-instant" } else { "clean-stream" },
+                format!("node n{}: after delivery of message #{} (`{}` => {}) all of 1..{} have arrived but {} applied", node + 1, idx, body, a, mex[node], applied[node]),
             );
             applied[node] = mex[node] - 1; // report once
         }
@@ -1281,6 +1354,7 @@ fn faulty_case(out: &mut Out, rng: &mut Rng) {
     let mut next_id = 0u64;
     let mut bd: Vec<u64> = (0..nodes).map(|_| rng.below(256)).collect();
     let mut old: Vec<(String, PMsg)> = vec![];
+    let mut last_birth_ts: Vec<u64> = vec![0; nodes as usize];
     let steps = rng.range(1, 5);
     let cancel_mid = rng.chance(1, 8);
     for _ in 0..steps {
@@ -1288,7 +1362,17 @@ fn faulty_case(out: &mut Out, rng: &mut Rng) {
         let name = format!("n{}", k + 1);
         let n = rng.range(1, 40) as usize;
         let ndev = rng.below(3);
-        let (birth, msgs) = session(rng, bd[k], c.now, n, ndev, &mut next_id);
+        // timestamp shapes as in `clean_case`; one session in four is stamped 1 ms behind the host clock (the
+        // millisecond of the previous request, e.g. of the NDEATH that ended the previous session), provided its
+        // NBIRTH stays strictly newer than the node's previous one
+        let shape = TsShape::random(rng);
+        let bts = if rng.chance(1, 4) && c.now - 1 > last_birth_ts[k] { c.now - 1 } else { c.now };
+        last_birth_ts[k] = bts;
+        c.out.count(shape.name());
+        if bts < c.now {
+            c.out.count("session-stamped-1ms-behind-host");
+        }
+        let (birth, msgs) = session_shaped(rng, bd[k], bts, n, ndev, &mut next_id, shape);
         let mut birth_lost = false;
         if rng.chance(9, 10) {
             c.op(&format!("ev {} {}", name, birth));
@@ -2188,6 +2272,76 @@ fn no_metrics_scenario(out: &mut Out) {
     }
 }
 
+/// EQUAL TIMESTAMPS at every comparison the host makes with a message timestamp. A node's session ends - NDEATH
+/// (matching / non-matching bdSeq), host Offline, a rebirth the host issues (unknown device), an NDEATH arriving in
+/// the very millisecond of the birth timestamp - at host clock reading S; its NEXT session is stamped S + delta,
+/// delta in {0, +1, -1}: NBIRTH and the first three messages carry exactly that millisecond, the following ones
+/// +1 and +5. C05, last sentence (delta >= 0, delivered in publish order, no loss, no duplicate): every message is
+/// applied by the line that delivers it - a message stamped AT the stale instant is not older than the staleness.
+/// delta = -1 (the publisher's clock is behind by more than the reconnect took): the NBIRTH is still newer than the
+/// previous one, but the messages stamped before the staleness may be discarded as old - nothing is demanded of
+/// them here (the model comparison and C06:old-message-discarded describe what happens).
+fn stale_instant_scenario(out: &mut Out) {
+    let t0 = 1_000_000u64;
+    for cfg in ["ip=1 bd=1 un=1 ud=1 um=1 rf=1 rs=1 to=100 cd=0 rq=1 q=1024", "ip=0 bd=1 un=1 ud=1 um=1 rf=1 rs=1 to=- cd=0 rq=1 q=1"] {
+        for how in ["ndeath", "ndeath-mismatch", "offline", "rebirth-issued", "ndeath-at-birth-instant"] {
+            for delta in [0i64, 1, -1] {
+                if how == "ndeath-at-birth-instant" && delta < 1 {
+                    continue; // S + delta is not newer than the previous birth (= S): that NBIRTH is a replay (C14), not a session
+                }
+                let mut c = Case::begin(out, cfg, t0);
+                let name = match delta {
+                    0 => "at",
+                    1 => "one-above",
+                    _ => "one-below",
+                };
+                c.out.set_desc(format!("ordered{} stale-instant {} {}", if delta >= 0 { " inorder" } else { "" }, how, name));
+                c.sess.ordered_ids = true;
+                c.sess.inorder = delta >= 0;
+                // first session; `ndeath-at-birth-instant`: the node's clock is 2 ms ahead, its NDEATH is taken when
+                // the host's clock reads exactly the birth timestamp
+                let b1 = if how == "ndeath-at-birth-instant" { t0 + 2 } else { t0 };
+                c.op(&format!("ev n1 nbirth ts={} bd=3 id=1 ans=ok", b1));
+                c.op(&format!("ev n1 ndata seq=1 ts={} id=2 ans=ok", b1));
+                let s = c.now; // the host clock reading of the request that makes the node stale
+                match how {
+                    "ndeath" | "ndeath-at-birth-instant" => {
+                        c.op("ev n1 ndeath bd=3");
+                    }
+                    "ndeath-mismatch" => {
+                        c.op("ev n1 ndeath bd=9");
+                    }
+                    "offline" => {
+                        c.op("offline");
+                        c.op("online");
+                    }
+                    _ => {
+                        c.op(&format!("ev n1 ddata dev=7 seq=2 ts={} id=0 ans=ok", s));
+                    }
+                }
+                let t = (s as i64 + delta) as u64;
+                c.op(&format!("ev n1 nbirth ts={} bd=4 id=10 ans=ok", t));
+                c.op(&format!("ev n1 ndata seq=1 ts={} id=11 ans=ok", t));
+                c.op(&format!("ev n1 dbirth dev=1 seq=2 ts={} id=12 ans=ok", t));
+                c.op(&format!("ev n1 ddata dev=1 seq=3 ts={} id=13 ans=ok", t));
+                c.op(&format!("ev n1 ndata seq=4 ts={} id=14 ans=ok", t + 1));
+                c.op(&format!("ev n1 ndata seq=5 ts={} id=15 ans=ok", t + 5));
+                // a second reconnect in the same way, the new session flat at the instant
+                let s2 = c.now;
+                c.op("ev n1 ndeath bd=4");
+                let t2 = (s2 as i64 + delta) as u64;
+                c.op(&format!("ev n1 nbirth ts={} bd=5 id=20 ans=ok", t2));
+                c.op(&format!("ev n1 ndata seq=1 ts={} id=21 ans=ok", t2));
+                c.op(&format!("ev n1 ndata seq=2 ts={} id=22 ans=ok m=0", t2));
+                c.op("adv 101");
+                c.out.nontrivial();
+                c.out.count("stale-instant-scenario");
+                c.out.count(&format!("stale-instant:{}:{}", how, name));
+            }
+        }
+    }
+}
+
 /// births and data stamped 0, 1, 2 ms: the first NBIRTH of a node is accepted iff its timestamp is
 /// newer than "never" (0), whatever the absolute value
 fn small_timestamp_scenario(out: &mut Out) {
@@ -2414,7 +2568,7 @@ fn invalid_unknown_node_scenario(out: &mut Out) {
     }
 }
 
-pub const RULE: &str = "host histories through the real Application (paused tokio time, mock clock, recording stores): (a) fault-free multi-node multi-device streams with several sessions/rebirths each, sequence wrap included, every message delivered once within a bounded displacement - up to 30 places, and in long sessions up to 128..254 places (every message late by up to that much, or one message overtaking 128..220 earlier ones), always fewer than 256 numbers outstanding; scripted `long-overtake`: one message overtakes the 128/129/191/200/254 before it, at the start of a session and across the sequence wrap, reorder timeout 3 s / none - (oracles: no NCMD, promptness, order); (b) the same with duplicates, losses, NDEATHs with matching/non-matching bdSeq, host offline/online, late old-session deliveries, unknown nodes/devices, store rejections, replayed NBIRTHs, invalid payloads, virtual time advanced to just before/after the reorder timeout, random rebirth switches, cooldown 0 / finite / longer than the run, timeout present/absent, resequencing on/off, node-queue sizes 1/2/1024; (c) every event sequence of length <= L over a 15-symbol single-node alphabet, for two configurations; (d) scripted trigger scenarios, node-clock-ahead/behind probes, a late duplicate followed by 300 messages; (e) payloads WITHOUT METRICS (`m=0`: NDATA / DBIRTH / DDATA carrying seq and timestamp only; DDEATH never carries any) in every generator - one message in eight of every generated session, two symbols of the exhaustive soups, a scripted scenario and every third message of a 530-message in-order session across the sequence wrap (oracle C05:prompt-apply: applied by the line that delivers it, nothing behind it withheld); (f) `AppClient::cancel()` of the generic Application (C20, host sentence): at the end or at a random point of faulty histories and random soups (final Offline delivered after the stop request was taken / withheld; the answer carries the ms until run() had returned; later requests meet a host that is gone), and - without request lines - a back-pressure matrix: node actors parked in their blocking rebirth NCMD publish by the client double, node queue sizes 1/2/1024 holding exactly the queue size / one less / none / one more message (the application task itself held in a send), final Offline withheld / delivered after the stop / handed over together with the cancel, parked calls released later or never, plus 40 random mixes of 1-3 nodes (oracles C20:host-cancel-never-waits, C20:host-cancel-publishes-offline-state, C20:host-cancel-disconnects, C20:host-run-returns). Non-trivial = at least two deliveries; distinct = distinct request-line sequences (hashed).";
+pub const RULE: &str = "host histories through the real Application (paused tokio time, mock clock, recording stores): (a) fault-free multi-node multi-device streams with several sessions/rebirths each, sequence wrap included, every message delivered once within a bounded displacement - up to 30 places, and in long sessions up to 128..254 places (every message late by up to that much, or one message overtaking 128..220 earlier ones), always fewer than 256 numbers outstanding; scripted `long-overtake`: one message overtakes the 128/129/191/200/254 before it, at the start of a session and across the sequence wrap, reorder timeout 3 s / none - (oracles: no NCMD, promptness, order); (b) the same with duplicates, losses, NDEATHs with matching/non-matching bdSeq, host offline/online, late old-session deliveries, unknown nodes/devices, store rejections, replayed NBIRTHs, invalid payloads, virtual time advanced to just before/after the reorder timeout, random rebirth switches, cooldown 0 / finite / longer than the run, timeout present/absent, resequencing on/off, node-queue sizes 1/2/1024; (c) every event sequence of length <= L over a 15-symbol single-node alphabet, for two configurations; (d) scripted trigger scenarios, node-clock-ahead/behind probes, a late duplicate followed by 300 messages; (e) payloads WITHOUT METRICS (`m=0`: NDATA / DBIRTH / DDATA carrying seq and timestamp only; DDEATH never carries any) in every generator - one message in eight of every generated session, two symbols of the exhaustive soups, a scripted scenario and every third message of a 530-message in-order session across the sequence wrap (oracle C05:prompt-apply: applied by the line that delivers it, nothing behind it withheld); (f) `AppClient::cancel()` of the generic Application (C20, host sentence): at the end or at a random point of faulty histories and random soups (final Offline delivered after the stop request was taken / withheld; the answer carries the ms until run() had returned; later requests meet a host that is gone), and - without request lines - a back-pressure matrix: node actors parked in their blocking rebirth NCMD publish by the client double, node queue sizes 1/2/1024 holding exactly the queue size / one less / none / one more message (the application task itself held in a send), final Offline withheld / delivered after the stop / handed over together with the cancel, parked calls released later or never, plus 40 random mixes of 1-3 nodes (oracles C20:host-cancel-never-waits, C20:host-cancel-publishes-offline-state, C20:host-cancel-disconnects, C20:host-run-returns). Sessions are stamped step-wise, flat (every message at the birth millisecond) or flat-head, and one reconnect in two starts in the very millisecond in which the host took the NDEATH (scripted stale-instant scenarios: five ways of going stale x next session stamped at / one above / one below the stale instant). Non-trivial = at least two deliveries; distinct = distinct request-line sequences (hashed).";
 
 pub fn run(args: &Args, out: &mut Out) -> &'static str {
     let mut rng = Rng::new(args.seed);
@@ -2430,6 +2584,7 @@ pub fn run(args: &Args, out: &mut Out) -> &'static str {
     cancel_scenarios(out, &mut rng);
     invalid_unknown_node_scenario(out);
     small_timestamp_scenario(out);
+    stale_instant_scenario(out);
     fast_node_clock_replay_scenario(out);
     real_clock_scenario(out);
     real_clock_cooldown_scenario(out);
